@@ -1,7 +1,7 @@
 (* Props/C01E.v — the end-to-end theorems of C01 (and the C06 corollary) over the pipeline model Model/C01EElab.v:
    elab_export_model = ResolvePortRefs ; ArrayFlattener ; SliceResolver ; proto export, for the core fragment.
 
-   Hypotheses, all boolean and evaluated by the correspondence run on every design (Corr/C01E.v):
+   The hypotheses are boolean and are evaluated by the correspondence run on every design (Corr/C01E.v):
      wf_design d = Ok tt   the design is valid (Spec/WfDesign.v),
      frag_ok d = true      the modelled fragment: a port reference is a whole connection (not inside a slice or a
                            concatenation), and the width written on a no-connect leaf is the port's (Spec/C01ENets.v),
